@@ -61,6 +61,13 @@ func readIPA(r *core.Result, rd io.Reader, desc string) (p ipa.IPAProof, err err
 }
 
 // c10Input checks one byte string through both parsers against the reference decoder, plus Write(Read(x)) = x.
+// one proof object of each kind per worker process, read into again and again
+var (
+	c10ReuseM          multiproof.MultiProof
+	c10ReuseI          ipa.IPAProof
+	c10PrevM, c10PrevI []byte
+)
+
 func c10Input(r *core.Result, b []byte, what string) {
 	desc := fmt.Sprintf("%s [len %d]", what, len(b))
 	wantM := len(b) == 576 && refFields(b, 17)
@@ -74,6 +81,58 @@ func c10Input(r *core.Result, b []byte, what string) {
 			var out bytes.Buffer
 			if werr := mp.Write(&out); werr != nil || !bytes.Equal(out.Bytes(), b) {
 				vio(r, "c10.roundtrip", "MultiProof.Write(Read(x))", desc, "reproduces the input", fmt.Sprintf("%x err=%v", out.Bytes(), werr))
+			}
+		}
+	}
+	// the same stream through a bytes.Buffer (a reader that hands out its own storage): the caller's bytes
+	// must be untouched afterwards and the decision the same
+	{
+		cp := append([]byte(nil), b...)
+		var mb multiproof.MultiProof
+		var errB error
+		if guard(r, "c10.panic", "MultiProof.Read", desc+" via bytes.NewBuffer", func() { errB = mb.Read(bytes.NewBuffer(cp)) }) {
+			r.Evals++
+			if (errB == nil) != wantM {
+				vio(r, "c10.accept", "MultiProof.Read", desc+" via bytes.NewBuffer", fmt.Sprintf("accepted=%v", wantM), fmt.Sprintf("err=%v", errB))
+			}
+			if !bytes.Equal(cp, b) {
+				vio(r, "c10.input_intact", "MultiProof.Read", desc+" via bytes.NewBuffer", "the caller's byte slice is unchanged", fmt.Sprintf("%x", cp))
+			}
+		}
+	}
+	// one long-lived proof variable that every stream is read into: value copies taken after earlier reads
+	// (they share nothing the next Read may reuse) must still serialise to what they were read from
+	{
+		keepM, keepI := c10ReuseM, c10ReuseI
+		prevM, prevI := c10PrevM, c10PrevI
+		var e1, e2 error
+		if guard(r, "c10.panic", "MultiProof.Read / IPAProof.Read", desc+" into a proof variable that was read into before", func() {
+			e1 = c10ReuseM.Read(bytes.NewReader(b))
+			e2 = c10ReuseI.Read(bytes.NewReader(b))
+		}) {
+			r.Evals++
+			if prevM != nil {
+				var out bytes.Buffer
+				if werr := keepM.Write(&out); werr != nil || !bytes.Equal(out.Bytes(), prevM) {
+					vio(r, "c10.roundtrip", "MultiProof.Read", desc+" into a proof variable that was read into before", "a value copy of the earlier proof still serialises to the earlier bytes", fmt.Sprintf("%x err=%v", out.Bytes(), werr))
+				}
+			}
+			if prevI != nil {
+				var out bytes.Buffer
+				if werr := keepI.Write(&out); werr != nil || !bytes.Equal(out.Bytes(), prevI) {
+					vio(r, "c10.roundtrip", "ipa.IPAProof.Read", desc+" into a proof variable that was read into before", "a value copy of the earlier proof still serialises to the earlier bytes", fmt.Sprintf("%x err=%v", out.Bytes(), werr))
+				}
+			}
+			c10PrevM, c10PrevI = nil, nil
+			if e1 == nil {
+				c10PrevM = append([]byte(nil), b...)
+			} else {
+				c10ReuseM = multiproof.MultiProof{} // a failed read leaves an unspecified object: start afresh
+			}
+			if e2 == nil && len(b) >= 544 {
+				c10PrevI = append([]byte(nil), b[:544]...)
+			} else {
+				c10ReuseI = ipa.IPAProof{}
 			}
 		}
 	}
@@ -346,6 +405,34 @@ func c10Units(ctx *core.Ctx) []core.Unit {
 			}
 		}
 		r.Sample(map[string]interface{}{"input": "honest proof with point field 9 := x+p alias", "expected": "rejected by MultiProof.Read and IPAProof.Read"})
+	}})
+	us = append(us, core.Unit{Name: "all pairs of fields replaced by curve points outside the subgroup", Run: func(ctx *core.Ctx, r *core.Result) {
+		needRef()
+		honest := honestProofBytes(ctx.Seed, 0)
+		// two abscissae of curve points outside the subgroup (rejected by the reference decoder, ordinate exists)
+		var bad [][]byte
+		for x := int64(2); len(bad) < 2 && x < 200; x++ {
+			if refDecode(bi(x)) != nil {
+				continue
+			}
+			if _, on := ref.CurvePointWithX(bi(x), true); on {
+				bad = append(bad, be32(bi(x)))
+			}
+		}
+		if len(bad) < 2 {
+			r.ToolError = "no abscissa outside the subgroup found below 200"
+			return
+		}
+		for f1 := 0; f1 < 17; f1++ {
+			for f2 := f1 + 1; f2 < 17; f2++ {
+				for v := 0; v < 2; v++ {
+					b := append([]byte(nil), honest...)
+					copy(b[f1*32:], bad[0])
+					copy(b[f2*32:], bad[v])
+					c10Input(r, b, fmt.Sprintf("honest proof with point fields %d and %d := abscissae outside the subgroup (variant %d)", f1, f2, v))
+				}
+			}
+		}
 	}})
 	if ctx.Thorough() {
 		for f1 := 0; f1 < 17; f1++ {
